@@ -5,7 +5,7 @@ test) and from one random.Random instance.
 """
 import random, itertools, json
 
-FREE_POOL = ["ophelia", "a", "b1", "x_y", "a.b", "a-b", "A", "0", "café", "cafe\u0301", "ophe\u0301lia", "my asset", "v001", "char",
+FREE_POOL = ["ophelia", "a", "b1", "x_y", "a.b", "a-b", "A", "0", "café", "cafe\u0301", "ophe\u0301lia", "Łucja", "王", "we\\ird", "x\\model", "my asset", "v001", "char",
              "hamlet", "model_WORK_v001.ma_art", "a+b", "w", "ma", "sq001", "x", "y", "zz", "n_1", "tree.v2",
              "١٢", "a b", "_", "-", "cam", "main"]
 JUNK = ["", " ", "junk", "JUNK", "\n", "a\nb", "\x00", "\t", "foo bar", "é", "\U0001F600", "0", "-", ".", "..",
@@ -94,6 +94,8 @@ class Vocab:
         if not concrete_only and rng.random() < search:
             return rng.choice(["*", ">", "*", "*"])
         if re_is_free(r):
+            if not concrete_only and rng.random() < 0.04:   # a free field accepts the EMPTY value
+                return ""
             if self.aliases and rng.random() < 0.07:      # an entity NAMED like an extension alias
                 return rng.choice(sorted(self.aliases.keys()))
             if not concrete_only and rng.random() < 0.06:  # ... or like anything that has a meaning elsewhere
@@ -264,7 +266,7 @@ def shuffled(rng, xs):
 # ---------------------------------------------------------------------------------------------
 # searches (C07 family) and universes (C08-C12 families)
 
-NAMES = ["ophelia", "a", "a-b", "a.b", "a+b", "b", "yorick", "x_y", "main", "cam", "A"]
+NAMES = ["ophelia", "a", "a-b", "a.b", "a+b", "b", "yorick", "x_y", "main", "cam", "A", "Łucja", "王", "череп"]
 
 
 class SearchGen:
